@@ -52,6 +52,10 @@ struct Scenario {
     args_first: bool,
     /// an existing output file is longer than anything the program writes (stale bytes must not survive)
     long_existing: bool,
+    /// 0: `--opt=value`, 1: `--opt value`, 2: `-o value`
+    arg_style: usize,
+    /// file names with blanks and non-ASCII characters
+    odd_names: bool,
 }
 
 const CLI_DERIVES: &[&str] = &[
@@ -95,6 +99,8 @@ fn decode(tapes: &Tapes) -> Scenario {
     };
     let args_first = m.chance(128);
     let long_existing = m.chance(128);
+    let arg_style = m.choose(3);
+    let odd_names = m.chance(90);
     let mut t = Tape::new(&tapes.a);
     let mut dom = Domain::general();
     dom.max_docs = 1;
@@ -116,7 +122,7 @@ fn decode(tapes: &Tapes) -> Scenario {
         InputKind::Empty => input = m.pick(&["", " ", "<!-- c -->", "text only"]).as_bytes().to_vec(),
         _ => {}
     }
-    Scenario { input_kind, input, parser, parser_short, derive, sort, output, args_first, long_existing }
+    Scenario { input_kind, input, parser, parser_short, derive, sort, output, args_first, long_existing, arg_style, odd_names }
 }
 
 fn describe(s: &Scenario) -> Value {
@@ -149,7 +155,8 @@ fn library(s: &Scenario) -> Result<String, String> {
 
 fn run(s: &Scenario, dir: &Path) -> Result<(), String> {
     std::fs::create_dir_all(dir).map_err(|e| format!("INFRA mkdir: {}", e))?;
-    let input_path = dir.join("input.xml");
+    let (in_name, out_name) = if s.odd_names { ("in put é 名.xml", "out put é 名.rs") } else { ("input.xml", "out.rs") };
+    let input_path = dir.join(in_name);
     match s.input_kind {
         InputKind::Missing => {}
         InputKind::Directory => std::fs::create_dir_all(&input_path).map_err(|e| format!("INFRA: {}", e))?,
@@ -159,9 +166,9 @@ fn run(s: &Scenario, dir: &Path) -> Result<(), String> {
     let old: &[u8] = &old_content;
     let out_path: Option<PathBuf> = match s.output {
         OutputKind::Stdout => None,
-        OutputKind::NewFile => Some(dir.join("out.rs")),
+        OutputKind::NewFile => Some(dir.join(out_name)),
         OutputKind::ExistingFile => {
-            let p = dir.join("out.rs");
+            let p = dir.join(out_name);
             std::fs::write(&p, old).map_err(|e| format!("INFRA: {}", e))?;
             Some(p)
         }
@@ -178,20 +185,29 @@ fn run(s: &Scenario, dir: &Path) -> Result<(), String> {
         }
     };
     let mut opt_args: Vec<String> = Vec::new();
-    if let Some(p) = s.parser {
-        if s.parser_short {
-            opt_args.push("-p".into());
-            opt_args.push(p.into());
-        } else {
-            opt_args.push(format!("--parser={}", p));
+    let mut push_opt = |long: &str, short: &str, value: &str, style: usize| {
+        // a value that starts with '-' can only be passed with '='
+        let style = if value.starts_with('-') { 0 } else { style };
+        match style {
+            0 => opt_args.push(format!("--{}={}", long, value)),
+            1 => {
+                opt_args.push(format!("--{}", long));
+                opt_args.push(value.to_string());
+            }
+            _ => {
+                opt_args.push(format!("-{}", short));
+                opt_args.push(value.to_string());
+            }
         }
+    };
+    if let Some(p) = s.parser {
+        push_opt("parser", "p", p, if s.parser_short { 2 } else { s.arg_style });
     }
     if let Some(d) = &s.derive {
-        opt_args.push(format!("--derive={}", d));
+        push_opt("derive", "d", d, s.arg_style);
     }
     if let Some(so) = s.sort {
-        opt_args.push("--sort".into());
-        opt_args.push(so.into());
+        push_opt("sort", "s", so, (s.arg_style + 1) % 3);
     }
     let mut pos_args: Vec<std::ffi::OsString> = vec![input_path.clone().into()];
     if let Some(p) = &out_path {
@@ -221,7 +237,7 @@ fn run(s: &Scenario, dir: &Path) -> Result<(), String> {
                 if stdout != format!("{}\n", expected) {
                     return Err(format!("stdout is not header + library rendering + newline:\n--- expected\n{}\n--- got\n{}", expected, stdout));
                 }
-                if dir.join("out.rs").exists() {
+                if dir.join(out_name).exists() {
                     return Err("an output file appeared although none was named".into());
                 }
             }
@@ -250,12 +266,12 @@ fn run(s: &Scenario, dir: &Path) -> Result<(), String> {
             // the named output path is neither created nor modified
             match s.output {
                 OutputKind::NewFile => {
-                    if dir.join("out.rs").exists() {
+                    if dir.join(out_name).exists() {
                         return Err("the input was at fault but the output file was created".into());
                     }
                 }
                 OutputKind::ExistingFile => {
-                    let now = std::fs::read(dir.join("out.rs")).map_err(|e| format!("existing output file vanished: {}", e))?;
+                    let now = std::fs::read(dir.join(out_name)).map_err(|e| format!("existing output file vanished: {}", e))?;
                     if now != old {
                         return Err(format!("the input was at fault but the existing output file was modified (now {} bytes)", now.len()));
                     }
@@ -300,6 +316,10 @@ impl Property for C12 {
         st.count(&format!("parser.{}", s.parser.unwrap_or("default")));
         st.count(&format!("sort.{}", s.sort.unwrap_or("default")));
         st.count(if s.derive.is_some() { "derive.given" } else { "derive.default" });
+        if s.odd_names {
+            st.count("file_names_with_blanks_and_non_ascii");
+        }
+        st.count(&format!("arg_style.{}", ["--opt=value", "--opt value", "-o value"][s.arg_style]));
         if s.output == OutputKind::ExistingFile && s.long_existing {
             st.count("output.ExistingFile.longer_than_new_output");
         }
@@ -314,7 +334,7 @@ impl Property for C12 {
         }
     }
     fn rule(&self) -> String {
-        "one process run of the freshly built CLI per case: input file in {generated valid document, byte-damaged UTF-8 document, non-UTF-8, missing, a directory, element-less} x --parser/-p in {default, quick-xml-de, serde-xml-rs} x --derive=<string from a list incl. empty, leading dashes, unicode, newline, shell metacharacters> or default x --sort in {default, unsorted, name} x output in {stdout, new file, existing file (short, or 15 KB and thus longer than the new output), path in a missing directory, path that is a directory, path below a regular file}, options before or after the positional arguments. Oracle: success = exit 0 and stdout (plus newline) or file bytes equal header + in-process library rendering with the mapped options, stdout empty when a file is named; failure = exit 1, empty stdout, non-empty stderr, named output untouched when the input was at fault. Non-trivial = any non-default option, an output file or a fault; distinct by hash of input bytes and arguments.".into()
+        "one process run of the freshly built CLI per case: input file in {generated valid document, byte-damaged UTF-8 document, non-UTF-8, missing, a directory, element-less} x --parser/-p in {default, quick-xml-de, serde-xml-rs} x --derive=<string from a list incl. empty, leading dashes, unicode, newline, shell metacharacters> or default x --sort in {default, unsorted, name} x output in {stdout, new file, existing file (short, or 15 KB and thus longer than the new output), path in a missing directory, path that is a directory, path below a regular file}, options before or after the positional arguments, written as `--opt=value`, `--opt value` or `-o value`, file names plain or with blanks and non-ASCII characters. Oracle: success = exit 0 and stdout (plus newline) or file bytes equal header + in-process library rendering with the mapped options, stdout empty when a file is named; failure = exit 1, empty stdout, non-empty stderr, named output untouched when the input was at fault. Non-trivial = any non-default option, an output file or a fault; distinct by hash of input bytes and arguments.".into()
     }
     fn assumptions(&self) -> Vec<String> {
         vec![
